@@ -86,8 +86,19 @@ class StrictBlock(Spec):
 
         return [Res("val", VBool(StrictBlock.SD(args[0].z, args[1].z, args[2].z)), st)]
 
+    def b_preds(ex, st, args, kw):  # noqa: N805
+        from pyvc.engine import Res
+        from pyvc.values import VSeq
+
+        # (only reached if the code starts looking at predecessors: nothing is known about them, so a shortcut based on them must be justified otherwise)
+        b = st.env["b"].z if "b" in st.env else z3.IntVal(0)
+        n = z3.Function("n_predecessors_of", z3.IntSort(), z3.IntSort())(b)
+        st.assume(n >= 0)
+        return [Res("val", VSeq(z3.Function("predecessors_of", z3.IntSort(), z3.ArraySort(z3.IntSort(), z3.IntSort()))(b), n, "ref", "Block"), st)]
+
     calls = {"DominanceInfo": Builtin(b_info, "DominanceInfo(region): identified with its region"),
-             ".strictly_dominates": Builtin(b_sd, "contract of DominanceInfo.strictly_dominates")}
+             ".strictly_dominates": Builtin(b_sd, "contract of DominanceInfo.strictly_dominates"),
+             ".predecessors": Builtin(b_preds, "Block.predecessors(): an uninterpreted sequence")}
 
     def setup(self, st, inst):
         return {"a": VRef(st.declare_input("a", z3.Int("a")), "Block"), "b": VRef(st.declare_input("b", z3.Int("b")), "Block")}
